@@ -419,6 +419,10 @@ func BVBin(op Op, a, b *Term) *Term {
 		if b.IsConst() {
 			return BVBin(OpBVAdd, a, BV(w, -b.C))
 		}
+		// (x + c) - r => (x - r) + c: constants move outward so that they meet and cancel
+		if a.Op == OpBVAdd && a.Args[1].IsConst() && !b.IsConst() {
+			return BVBin(OpBVAdd, BVBin(OpBVSub, a.Args[0], b), a.Args[1])
+		}
 	case OpBVMul:
 		if a.IsConst() {
 			if a.C == 0 {
